@@ -49,7 +49,12 @@ def tweak(rng, row, w, case):
             for r in range(12):
                 st['drsrs[%d]' % r] = 0
             st['drsrs[0]'], st['drbars[0]'], st['dracrs[0]'] = (31 << 1) | 1, 0, 3 << 8
-            st['drsrs[11]'], st['drbars[11]'], st['dracrs[11]'] = (1 << 1) | 1, (st[gen.bank_key(f['n'], mode)] + 4 * rng.randrange(-18, 18)) & 0xFFFFFFFC, 0
+            base_ = st[gen.bank_key(f['n'], mode)]
+            nwords = (bin(f.get('r', 0)).count('1') + 1) if nm.startswith('LDM') else 2
+            inc, before = f.get('U', 1), f.get('P', 0)
+            lo = (base_ + (4 if before else 0)) if inc else (base_ - 4 * nwords + (0 if before else 4))
+            hit = (lo + 4 * (nwords - 1)) if rng.random() < 0.5 else (lo + 4 * rng.randrange(-1, nwords + 1))      # the last (highest) word is the return address / CPSR image
+            st['drsrs[11]'], st['drbars[11]'], st['dracrs[11]'] = (1 << 1) | 1, hit & 0xFFFFFFFC, 0
             st['mpuir'] = 12 << 8
             st['sctlr'] = (st['sctlr'] | 1) & ~(1 << 13)
             st['vbar'] = 0
